@@ -184,12 +184,23 @@ def go_env():
 def ensure_harness_module():
     """go.mod/go.sum of the harness so that it always builds against REPO's working tree. For an
     alternative REPO the harness is copied to OUT/harness (so /verif/harness is never rewritten)."""
+    with _HARNESS_LOCK:
+        return _ensure_harness_module()
+
+
+_HARNESS_LOCK = threading.Lock()
+_HARNESS_READY = []
+
+
+def _ensure_harness_module():
     hdir = HARNESS
     if ALT:
         hdir = os.path.join(OUT, "harness")
-        if os.path.exists(hdir):
-            shutil.rmtree(hdir)
-        shutil.copytree(HARNESS, hdir)
+        if not _HARNESS_READY:      # once per process: stages of one check may build in parallel
+            if os.path.exists(hdir):
+                shutil.rmtree(hdir)
+            shutil.copytree(HARNESS, hdir)
+            _HARNESS_READY.append(hdir)
     gomod = os.path.join(hdir, "go.mod")
     want_replace = "replace github.com/NVIDIA/KAI-scheduler => %s" % REPO
     txt = open(gomod).read()
